@@ -1,5 +1,246 @@
 package main
 
+import (
+	"bufio"
+	"fmt"
+	"os"
+	"os/exec"
+	"path/filepath"
+	"sort"
+	"strconv"
+	"strings"
+)
+
+// Thorough tier: (a) the property's rules are re-run under alternative build configurations so that every
+// file any configuration compiles is seen; a violation there fails the check; (b) every catalogued control
+// (/verif/controls/<prop>/*.diff, my own one-line edits) and every kept seeded mutation (/verif/seeded/<prop>-*/
+// patch.diff) is applied IN MEMORY through packages.Config.Overlay, must still type-check, and the property's
+// rules must report a violation. Controls never change the exit status: a control that no longer applies
+// after someone edited /repo is "stale", not a property violation.
+
+type hunk struct {
+	oldStart int
+	oldLines []string // context + removed
+	newLines []string // context + added
+}
+
+type filePatch struct {
+	path  string
+	hunks []hunk
+}
+
+func parseUnifiedDiff(text string) []filePatch {
+	var out []filePatch
+	var cur *filePatch
+	var h *hunk
+	sc := bufio.NewScanner(strings.NewReader(text))
+	sc.Buffer(make([]byte, 1<<20), 1<<24)
+	for sc.Scan() {
+		line := sc.Text()
+		switch {
+		case strings.HasPrefix(line, "+++ "):
+			p := strings.TrimSpace(strings.TrimPrefix(line, "+++ "))
+			p = strings.TrimPrefix(p, "b/")
+			if i := strings.Index(p, "\t"); i >= 0 {
+				p = p[:i]
+			}
+			out = append(out, filePatch{path: p})
+			cur = &out[len(out)-1]
+			h = nil
+		case strings.HasPrefix(line, "--- "), strings.HasPrefix(line, "diff "), strings.HasPrefix(line, "index "):
+			h = nil
+		case strings.HasPrefix(line, "@@ "):
+			if cur == nil {
+				continue
+			}
+			// @@ -l,s +l,s @@
+			parts := strings.Fields(line)
+			start := 1
+			if len(parts) >= 2 {
+				o := strings.TrimPrefix(parts[1], "-")
+				if i := strings.Index(o, ","); i >= 0 {
+					o = o[:i]
+				}
+				start, _ = strconv.Atoi(o)
+			}
+			cur.hunks = append(cur.hunks, hunk{oldStart: start})
+			h = &cur.hunks[len(cur.hunks)-1]
+		default:
+			if h == nil {
+				continue
+			}
+			switch {
+			case strings.HasPrefix(line, " "):
+				h.oldLines = append(h.oldLines, line[1:])
+				h.newLines = append(h.newLines, line[1:])
+			case strings.HasPrefix(line, "-"):
+				h.oldLines = append(h.oldLines, line[1:])
+			case strings.HasPrefix(line, "+"):
+				h.newLines = append(h.newLines, line[1:])
+			case line == "":
+				h.oldLines = append(h.oldLines, "")
+				h.newLines = append(h.newLines, "")
+			}
+		}
+	}
+	return out
+}
+
+// applyPatch applies the hunks to content; ok=false if some hunk does not match (stale).
+func applyPatch(content string, fp filePatch) (string, bool) {
+	lines := strings.Split(content, "\n")
+	offset := 0
+	for _, h := range fp.hunks {
+		pos := -1
+		want := h.oldStart - 1 + offset
+		match := func(at int) bool {
+			if at < 0 || at+len(h.oldLines) > len(lines) {
+				return false
+			}
+			for i, l := range h.oldLines {
+				if lines[at+i] != l {
+					return false
+				}
+			}
+			return true
+		}
+		for d := 0; d < len(lines)+1 && pos < 0; d++ {
+			if match(want + d) {
+				pos = want + d
+			} else if match(want - d) {
+				pos = want - d
+			}
+		}
+		if pos < 0 {
+			return "", false
+		}
+		nl := append([]string{}, lines[:pos]...)
+		nl = append(nl, h.newLines...)
+		nl = append(nl, lines[pos+len(h.oldLines):]...)
+		offset += len(h.newLines) - len(h.oldLines)
+		lines = nl
+	}
+	return strings.Join(lines, "\n"), true
+}
+
+type controlResult struct {
+	Name     string   `json:"name"`
+	Kind     string   `json:"kind"` // control | seeded
+	Outcome  string   `json:"outcome"`
+	Reported []string `json:"reported,omitempty"`
+}
+
+func runControl(repo, patchFile string, p *Property) (string, []string) {
+	b, err := os.ReadFile(patchFile)
+	if err != nil {
+		return "stale: " + err.Error(), nil
+	}
+	overlay := map[string][]byte{}
+	for _, fp := range parseUnifiedDiff(string(b)) {
+		full := filepath.Join(repo, fp.path)
+		src, err := os.ReadFile(full)
+		if err != nil {
+			return "stale: cannot read " + fp.path, nil
+		}
+		patched, ok := applyPatch(string(src), fp)
+		if !ok {
+			return "stale: hunk does not apply to " + fp.path, nil
+		}
+		overlay[full] = []byte(patched)
+	}
+	if len(overlay) == 0 {
+		return "stale: empty patch", nil
+	}
+	c2, err := loadRepo(repo, overlay)
+	if err != nil {
+		return "does-not-typecheck: " + err.Error(), nil
+	}
+	res := runProperty(c2, p)
+	var reported []string
+	for _, o := range res.Obs {
+		if o.Status == Violated || o.Status == Undecided {
+			if strings.Contains(o.Key, "wake-up-capacity") {
+				continue // the open known finding is not evidence that the control fired
+			}
+			reported = append(reported, o.Rule+" @ "+o.Pos)
+		}
+	}
+	if len(reported) > 0 {
+		return "fired", reported
+	}
+	return "MISSED", nil
+}
+
 func thoroughImpl(c *Ctx, p *Property, repo, verif string) map[string]interface{} {
-	return map[string]interface{}{}
+	out := map[string]interface{}{}
+	// (a) alternative build configurations, one subprocess each to bound memory
+	type cfg struct{ goos, goarch string }
+	var alt []map[string]interface{}
+	altViol := 0
+	self, _ := os.Executable()
+	for _, k := range []cfg{{"linux", "386"}, {"darwin", "arm64"}, {"windows", "amd64"}} {
+		cmd := exec.Command(self, "-prop", p.ID, "-repo", repo, "-verif", verif, "-no-evidence")
+		cmd.Env = append(os.Environ(), "VERIF_GOOS="+k.goos, "VERIF_GOARCH="+k.goarch, "VERIF_TIER=quick")
+		outb, err := cmd.CombinedOutput()
+		lines := strings.Split(strings.TrimSpace(string(outb)), "\n")
+		last := ""
+		if len(lines) > 0 {
+			last = lines[len(lines)-1]
+		}
+		st := "held"
+		if err != nil {
+			st = "VIOLATION"
+			altViol++
+			for _, l := range lines {
+				if strings.HasPrefix(l, "VIOLATION") || strings.Contains(l, "violated:") {
+					fmt.Println("[" + k.goos + "/" + k.goarch + "] " + l)
+				}
+			}
+		}
+		alt = append(alt, map[string]interface{}{"GOOS": k.goos, "GOARCH": k.goarch, "status": st, "summary": last})
+	}
+	out["alt_configs"] = alt
+	out["alt_config_violations"] = altViol
+	// (b) controls and seeded mutations
+	var files []struct{ name, kind, path string }
+	if ents, err := os.ReadDir(filepath.Join(verif, "controls", p.ID)); err == nil {
+		for _, e := range ents {
+			if strings.HasSuffix(e.Name(), ".diff") {
+				files = append(files, struct{ name, kind, path string }{p.ID + "/" + e.Name(), "control", filepath.Join(verif, "controls", p.ID, e.Name())})
+			}
+		}
+	}
+	if ents, err := os.ReadDir(filepath.Join(verif, "seeded")); err == nil {
+		for _, e := range ents {
+			if strings.HasPrefix(e.Name(), p.ID+"-") {
+				files = append(files, struct{ name, kind, path string }{e.Name(), "seeded", filepath.Join(verif, "seeded", e.Name(), "patch.diff")})
+			}
+		}
+	}
+	sort.Slice(files, func(i, j int) bool { return files[i].name < files[j].name })
+	var results []controlResult
+	fired, missed, stale := 0, 0, 0
+	for _, f := range files {
+		outcome, rep := runControl(repo, f.path, p)
+		if len(rep) > 3 {
+			rep = rep[:3]
+		}
+		results = append(results, controlResult{Name: f.name, Kind: f.kind, Outcome: outcome, Reported: rep})
+		switch {
+		case outcome == "fired":
+			fired++
+		case outcome == "MISSED":
+			missed++
+			fmt.Println("control " + f.name + ": NOT detected by " + p.ID + "'s rules (recorded in the evidence; does not change the verdict on /repo)")
+		default:
+			stale++
+		}
+	}
+	out["controls_applied"] = len(files)
+	out["controls_fired"] = fired
+	out["controls_missed"] = missed
+	out["controls_stale"] = stale
+	out["controls"] = results
+	fmt.Printf("%s thorough: %d alternative build configurations (%d with violations); %d controls/seeded mutations applied through Overlay: %d fired, %d missed, %d stale\n", p.ID, len(alt), altViol, len(files), fired, missed, stale)
+	return out
 }
